@@ -106,6 +106,10 @@ def run_stratified(a, semi):
                 g = samplers.GCPSampler(S, function_sampler=samplers.Samplers.STRATIFIED, function_samples=cnt)
                 subs, vals, wgts = g.function_sample(S)
     except Exception as ex:
+        try:
+            meta["zero_draw"] = any(0 in r for blk in cap.uniform if blk.size for r in _numerators(blk))
+        except Exception:
+            pass
         return {"exc": type(ex).__name__, "msg": str(ex)[:200], "meta": meta}
     nidx = [int(x) for x in cap.choice[0]] if cap.choice else (list(range(nnz)) if a["cn"] == nnz else [])
     draws = _numerators(cap.uniform[0]) if cap.uniform and cap.uniform[0].size else []
@@ -130,9 +134,14 @@ def rand_problem(rng, shp):
     data = [rng.randint(0, 4) for _ in range(n)]
     if not any(data):
         data[0] = 2
+    sparse = rng.random() < 0.35
+    if sparse:          # a sparse tensor without zeros cannot be sampled at all (finding C13-S1): keep two zeros here
+        data[1] = data[2] = 0
+        if not any(data):
+            data[0] = 2
     fac = [[[rng.randint(1, 8) / 4.0 for _ in range(R)] for _ in range(d)] for d in shp]
     return {"shape": list(shp), "data": data, "R": R, "init": fac, "obj": obj, "seed": rng.randrange(10 ** 6),
-            "sparse": rng.random() < 0.35, "fs": rng.randint(2, 6), "gs": rng.randint(1, 4)}
+            "sparse": sparse, "fs": rng.randint(2, 6), "gs": rng.randint(1, 4)}
 
 
 def _objective(a):
@@ -387,5 +396,15 @@ def _w_semi0():
     return f"semistrat(num_nonzeros=0) raises {o['exc']}" if "exc" in o else None
 
 
-WITNESSES = {"A-35": _w_a35, "A-36": _w_a36("adam"), "A-36b": _w_a36("adagrad"), "A-37": _w_a37, "A-47": _w_a47,
+def _w_empty():
+    a = {"shape": [2, 3], "subs": [], "vals": [], "cn": 0, "cz": 2, "seed": 3, "force": None}
+    o = run_stratified(a, semi=False)
+    return f"stratified sampling of an all-zero sptensor raises {o['exc']}" if "exc" in o else None
+
+
+def _w_a36_both():
+    return _w_a36("adam")() or _w_a36("adagrad")()
+
+
+WITNESSES = {"A-35": _w_a35, "A-36": _w_a36_both, "C13-S3": _w_empty, "A-37": _w_a37, "A-47": _w_a47,
              "A-48": _w_a48, "C13-S1": _w_short, "C13-S2": _w_semi0}
